@@ -20,14 +20,10 @@ import subprocess
 import vlib
 
 THEOREMS = [
-    "builder_flat",
+    "c11_builder_flat",
     "nl_eq_spec_inner", "nl_eq_spec_semi", "nl_eq_spec_anti",
     "limit_exec_eq_spec", "chunking_irrelevant_limit",
-    "topn_eq_order_limit",
-    "rowpath_count_eq_spec", "rowpath_max_eq_spec", "rowpath_min_eq_spec",
-    "rowpath_sum_partial", "rowpath_sum_unsound",
-    "chunkpath_sum_unsound",
-    "hash_semi_eq_nl_partial", "hash_semi_null_key_unsound",
+    "topn_eq_order_limit", "topn_eq_spec",
 ]
 
 # witnesses of the `_unsound` theorems, replayed on the implementation by the corpus file
@@ -147,6 +143,12 @@ def decide(ck, reqs, meta, impl, model, stats, origin="gen"):
                 sens = sorted(set(a["sens"]) | set(b["sens"]))
                 predicted = a["model"] != b["model"]
                 observed = a["impl"] != b["impl"]
+                if any(t.startswith("agg:first") or t.startswith("agg:last") for t in sens):
+                    # `first`/`last` are order dependent BY DEFINITION; after `order`
+                    # (sort_unstable_by) the order of ties is unspecified, so hashagg(X) and
+                    # sortagg(order(X)) are not comparable on them: outside the property
+                    stats["order_dependent_first_last_skipped"] += 1
+                    continue
                 if sens:
                     predicted = observed  # tie order decides; the model can not know
                 stats["model_vs_oracle"]["compared"] += 1
@@ -171,7 +173,7 @@ def decide(ck, reqs, meta, impl, model, stats, origin="gen"):
 
 
 def new_stats():
-    return {"evaluations": 0, "families": {}, "detail": {}, "chunk_sizes": {}, "unsupported": 0, "skipped_empty_input": 0, "order_sensitive_skipped": 0,
+    return {"evaluations": 0, "families": {}, "detail": {}, "chunk_sizes": {}, "unsupported": 0, "skipped_empty_input": 0, "order_sensitive_skipped": 0, "order_dependent_first_last_skipped": 0,
             "model_vs_impl": {"compared": 0, "disagree": 0}, "impl_vs_oracle": {"compared": 0, "disagree": 0},
             "model_vs_oracle": {"compared": 0, "disagree": 0}, "tags": {}, "distinct": set()}
 
@@ -223,7 +225,7 @@ def run(ck):
         "distribution": {"families": stats["families"], "shapes": dict(sorted(stats["detail"].items())[:80]),
                          "table_chunk_sizes": stats["chunk_sizes"], "unsupported_plans": stats["unsupported"],
                          "simple_vs_hash_skipped_on_empty_input": stats["skipped_empty_input"],
-                         "reason_tags_seen": stats["tags"], "order_sensitive_plans_not_compared_with_model": stats["order_sensitive_skipped"], "corpus_evaluations": corpus_evals},
+                         "reason_tags_seen": stats["tags"], "first_last_after_unstable_sort_pairs_not_compared": stats["order_dependent_first_last_skipped"], "order_sensitive_plans_not_compared_with_model": stats["order_sensitive_skipped"], "corpus_evaluations": corpus_evals},
     })
     return ck.finish(level="proof", trusted_base=[
         "Lean 4 kernel (theorems about Model.Exec / Model.Rel)",
